@@ -8,6 +8,7 @@ import (
 	"fmt"
 	"net/http"
 	"net/http/httptest"
+	"sync/atomic"
 	"time"
 
 	connect "github.com/bufbuild/connect-go"
@@ -266,6 +267,91 @@ func C19(r *h.Run) {
 			}
 		}
 	}
+	// ---- calls that OVERLAP on one handler: B enters and waits; A returns normally; then B
+	// panics. Whether a call panicked is that call's business: B is recovered ----
+	for _, proto := range protos {
+		for _, kind := range []string{"unary", "server"} {
+			cfg := envCfg{Proto: proto}
+			var handled atomic.Int64
+			bEntered, bGo := make(chan struct{}), make(chan struct{})
+			hopts := []connect.HandlerOption{connect.WithCodec(h.ToyCodec{}), connect.WithRecover(func(context.Context, connect.Spec, http.Header, any) error {
+				handled.Add(1)
+				return connect.NewError(connect.CodeDataLoss, errors.New("recovered"))
+			})}
+			body := func(who string) {
+				if who == "B" {
+					close(bEntered)
+					<-bGo
+					panic("B panics after A has returned")
+				}
+			}
+			var handler *connect.Handler
+			if kind == "unary" {
+				handler = connect.NewUnaryHandler("/verif.Svc/M", func(_ context.Context, req *connect.Request[h.Raw]) (*connect.Response[h.Raw], error) {
+					body(string(req.Msg.B))
+					return connect.NewResponse(&h.Raw{B: []byte("ok")}), nil
+				}, hopts...)
+			} else {
+				handler = connect.NewServerStreamHandler("/verif.Svc/M", func(_ context.Context, req *connect.Request[h.Raw], s *connect.ServerStream[h.Raw]) error {
+					_ = s.Send(&h.Raw{B: []byte("first")})
+					body(string(req.Msg.B))
+					return nil
+				}, hopts...)
+			}
+			serve := func(who string) (rec *httptest.ResponseRecorder, escaped any) {
+				b := h.Frame(0, []byte(who))
+				ct := cfg.contentType(false)
+				if kind == "unary" && proto == "connect" {
+					b, ct = []byte(who), cfg.contentType(true)
+				}
+				req := httptest.NewRequest(http.MethodPost, "/verif.Svc/M", bytes.NewReader(b))
+				req.ProtoMajor, req.ProtoMinor = 2, 0
+				req.Header.Set("Content-Type", ct)
+				rec = httptest.NewRecorder()
+				escaped = safely(func() { handler.ServeHTTP(rec, req) })
+				return
+			}
+			type outcome struct {
+				rec     *httptest.ResponseRecorder
+				escaped any
+			}
+			bDone := make(chan outcome, 1)
+			go func() { rec, esc := serve("B"); bDone <- outcome{rec, esc} }()
+			in := map[string]any{"proto": proto, "kind": kind, "schedule": "B enters; A enters and returns normally; B panics"}
+			r.Eval("recover_overlap", fmt.Sprint(proto, kind))
+			select {
+			case <-bEntered:
+			case <-time.After(5 * time.Second):
+				r.Fail(h.Failure{Key: "recover/hang", Family: "recover_overlap", What: "call B never reached user code", Input: in})
+				continue
+			}
+			recA, escA := serve("A")
+			close(bGo)
+			var b outcome
+			select {
+			case b = <-bDone:
+			case <-time.After(5 * time.Second):
+				r.Fail(h.Failure{Key: "recover/hang", Family: "recover_overlap", What: "call B did not finish", Input: in})
+				continue
+			}
+			peerKind := "server"
+			if kind == "unary" && proto == "connect" {
+				peerKind = "unary"
+			}
+			codeA, _ := peerError(proto, peerKind, recA)
+			codeB, msgB := peerError(proto, peerKind, b.rec)
+			r.Sample("recover_overlap", map[string]any{"in": in, "A": codeA, "B": codeB, "recovery_function_calls": handled.Load()})
+			if escA != nil || codeA != "" {
+				r.Fail(h.Failure{Key: "recover/no-panic-affected", Family: "recover_overlap", What: "call A does not panic and was affected", Input: in, Actual: fmt.Sprint(escA, " ", codeA)})
+			}
+			if b.escaped != nil {
+				r.Fail(h.Failure{Key: "recover/panic-escaped", Family: "recover_overlap", What: "the panic of call B escaped ServeHTTP (another call of the same procedure had returned normally meanwhile)", Input: in, Actual: fmt.Sprint(b.escaped)})
+			} else if handled.Load() != 1 || codeB != "data_loss" || msgB != "recovered" {
+				r.Fail(h.Failure{Key: "recover/handle-calls", Family: "recover_overlap", What: "call B's panic was not converted by exactly one call of the recovery function", Input: in, Actual: fmt.Sprint("calls=", handled.Load(), " B sees ", codeB, ": ", msgB)})
+			}
+		}
+	}
+
 }
 
 // peerError extracts the error code/message a peer would see from a recorded response.
